@@ -45,8 +45,10 @@ def run(ctx, out):
         seed_off=503,
         n_sim=1500 if ctx.quick else 9000,
         n_rand=500 if ctx.quick else 5000,
+        n_edge=0,
+        n_elem=120 if ctx.quick else 1200,
     )
-    for key in ("runs_iteration_based", "runs_time_based", "warmup_requests", "runs_with_straddling_warmup_request", "runs_with_rampup_delay", "runs_completed_externally", "deterministic_gaps", "weight_changes"):
+    for key in ("runs_with_rampup_delay_in_multi_subtask_parallel", "runs_with_completion_runner_not_completing", "runs_completed_by_runner", "runs_iteration_based", "runs_time_based", "warmup_requests", "runs_with_straddling_warmup_request", "runs_with_rampup_delay", "runs_completed_externally", "deterministic_gaps", "weight_changes"):
         if not cov[key]:
             out.vacuous.append("no executed run exercised: " + key)
 
